@@ -99,6 +99,7 @@ pub fn set_mathml(mathml_str: String) -> Result<String> {
         static ref MATHJAX_V3: Regex = Regex::new(r#"class *= *['"]data-mjx-.*?['"]"#).unwrap();
         static ref NAMESPACE_DECL: Regex = Regex::new(r#"xmlns:[[:alpha:]]+"#).unwrap();     // very limited namespace prefix match
         static ref PREFIX: Regex = Regex::new(r#"(</?)[[:alpha:]]+:"#).unwrap();     // very limited namespace prefix match
+        static ref XML_TAG: Regex = Regex::new(r#"<(?:[^<>"']|"[^"]*"|'[^']*')*>"#).unwrap();     // a start, end, or empty-element tag (attribute values can contain '>')
         static ref HTML_ENTITIES: Regex = Regex::new(r#"&([a-zA-Z][a-zA-Z0-9]*?);"#).unwrap();     // names such as "frac12" and "sup2" contain digits
     }
 
@@ -127,14 +128,16 @@ pub fn set_mathml(mathml_str: String) -> Result<String> {
         if !error_message.is_empty() {
             bail!(error_message);
         }
-        let mathml_str = MATHJAX_V2.replace_all(&mathml_str, "");
-        let mathml_str = MATHJAX_V3.replace_all(&mathml_str, "");
-
         // the speech rules use the xpath "name" function and that includes the prefix
         // getting rid of the prefix properly probably involves a recursive replacement in the tree
         // if the prefix is used, it is almost certainly something like "m" or "mml", so this cheat will work.
-        let mathml_str = NAMESPACE_DECL.replace(&mathml_str, "xmlns"); // do this before the PREFIX replace!
-        let mathml_str = PREFIX.replace_all(&mathml_str, "$1");
+        // The replacements are only done inside of tags so that text content that looks like markup is left alone.
+        let mathml_str = XML_TAG.replace_all(&mathml_str, |cap: &Captures| {
+            let tag = MATHJAX_V2.replace_all(&cap[0], "");
+            let tag = MATHJAX_V3.replace_all(&tag, "");
+            let tag = NAMESPACE_DECL.replace(&tag, "xmlns"); // do this before the PREFIX replace!
+            PREFIX.replace_all(&tag, "$1").to_string()
+        });
 
         let new_package = parser::parse(&mathml_str);
         if let Err(e) = new_package {
